@@ -671,6 +671,35 @@ def main():
                                   'relative_difference': abs(cc.radius - ref_m) / ref_m})
         if rads and (max(rads) - min(rads)) / max(rads) > 1e-6:
             welzl_bad.append({'polygon': pts, 'seed_spread': (max(rads) - min(rads)) / max(rads)})
+    # D.3r outlines that list a position MORE THAN ONCE (regression D52: a repeated vertex handed the three-point case a
+    #      degenerate triangle -> NaN centre -> the Coordinate constructor never returned; pie-slice wedges repeat their centre
+    #      k+1 times): the call must return for every seed, enclose every vertex and be the smallest cap of the distinct points
+    from lib import guarded_alarm
+    rep_corpus = []
+    for pts in welzl_corpus[:6]:
+        rep_corpus.append(pts[:1] + pts)                                    # doubled first vertex
+        rep_corpus.append(pts[:2] + pts[1:2] + pts[1:2] + pts[2:])          # tripled interior vertex
+        rep_corpus.append([q for p_ in pts for q in (p_, p_)])              # every vertex twice
+    for c_, r0, r1, a0, a1, kk in (((10.5, 0.0), 0, 900, 0, 90, 8), ((30.5, -31.0), 0, 5000, 200, 320, None), ((-120.5, 61.5), 0, 25000, 350, 370, 4)):
+        W_ = GeoRing(Coordinate(*c_), r0, r1, angle_min=a0, angle_max=a1)
+        rep_corpus.append([tuple(v.to_float()[:2]) for v in W_.to_polygon(**({'k': kk} if kk else {})).outline[:-1]])
+    for pts in rep_corpus:
+        P = GeoPolygon([Coordinate(*p) for p in pts])
+        distinct = list(dict.fromkeys(tuple(p) for p in pts))
+        ref_m = smallest_cap(distinct)[1] * R_EARTH
+        for seed in range(8):
+            pyrandom.seed(seed)
+            r_ = guarded_alarm(lambda: P.circumscribing_circle(), 5)
+            corpus_n += 1
+            if r_[0] != 'Ok':
+                welzl_bad.append({'polygon': pts, 'seed': seed, 'raised': r_[1], 'corpus': 'repeated positions'}); continue
+            cc = r_[1]
+            ex = enclosure_excess(P.outline, cc)
+            if not (cc.radius == cc.radius) or ex > 1e-6:
+                welzl_bad.append({'polygon': pts, 'seed': seed, 'excess_over_radius': ex, 'corpus': 'repeated positions'})
+            elif abs(cc.radius - ref_m) > 1e-6 * ref_m + 1e-3:
+                welzl_bad.append({'polygon': pts, 'seed': seed, 'radius': cc.radius, 'smallest_enclosing_radius': ref_m,
+                                  'relative_difference': abs(cc.radius - ref_m) / ref_m, 'corpus': 'repeated positions'})
     # D.3b small polygons (about 0.05-0.08 degrees across, mid and high latitudes) whose smallest enclosing circle is
     #      fixed by THREE vertices placed, with the harness's own geodesy, on a circle of known radius d around a known
     #      centre (an acute triple: that circle IS the smallest enclosing one).  Enclosure, minimality (radius = d) and
